@@ -13,6 +13,7 @@ import Spydr.Common.Proto
 import Spydr.Names.Model
 import Spydr.Names.ModelOld
 import Spydr.Names.Spec
+import Spydr.Names.ModelObs
 
 open Lean Spydr.Proto Spydr.Names
 
@@ -46,8 +47,6 @@ def getRules (j : Json) : Except String (Option Old.Rules) :=
 
 def str (s : Str) : Json := Json.str (String.ofList s)
 
-def toObs (l : List Sib) : List Spec.Obs :=
-  l.map fun s => { name := s.name, ident := s.ident.getD [], rename := s.rename, assigned := s.assigned }
 
 def sibOut (s : Sib) : Json :=
   Json.mkObj [("ident", match s.ident with | none => Json.null | some i => str i),
@@ -73,7 +72,7 @@ def handle (st : Unit) (j : Json) : Except String (Unit × Json) := do
       let fin := match rules with
         | none => assignGoFinished [] sibs
         | some _ => true
-      let obs := toObs out
+      let obs := observe out
       pure (st, Json.mkObj [
         ("out", Json.arr (out.map sibOut).toArray),
         ("finished", Json.bool fin),
